@@ -185,7 +185,6 @@ func registry() []PropSpec {
 				{Pkg: pkgCC, Func: "H06p_q", Unwind: 8, UnwindFor: map[string]int{"parseConfig": 60, "h06p": 60}, NoDedupe: true, TimeoutMs: 400000, FeasSecs: 3, Solvers: []string{"z3-new"}, JobSecs: 1500, Split: []SplitDim{{"ninc", 0, 1}, {"nexc", 0, 1}, {"tls", 0, 2}}, CaseNote: "case split: number of include / exclude entries (0..1 each) and the supports_tls tri-state; everything else symbolic", Note: "parseConfig set algebra: features with exactly one (arbitrary) entry per axis list and 7 tri-state flags (supports_tls_client_certs unset or false), <=1 include and <=1 exclude entry (every field independently set or omitted), arbitrary probe case: result == (features + include) - exclude, contradictory or empty configurations rejected"},
 			},
 			Thorough: []HarnessSpec{
-				{Pkg: pkgCC, Func: "H06a_t", Unwind: 8, Note: "as quick with axis lists of length <=3", JobSecs: 3000, ExecSecs: 1200, TimeoutMs: 1500000},
 			},
 			Stubs: []string{"protoyaml Unmarshal replaced by a stub that installs the symbolic Config (natively: the Config is marshalled to JSON and really parsed)", "os.Stderr deprecation warning is a no-op"},
 			Out:   []string{"YAML syntax", "literal error texts", "parseConfig's include/exclude loops with multi-valued axis lists (the map logs make the query intractable; resolveCase is checked directly instead)"},
@@ -200,9 +199,7 @@ func registry() []PropSpec {
 				{Pkg: pkgTracer, Func: "H14w_q", Unwind: 40, CaseGen: c14wCases(2, 2, 2), CaseNote: "case split: message lengths, number of bytes accepted in total, their partition into 2 writes, and 0..2 extra bytes of the last write that the underlying writer refuses (short write); flags, payloads and the error of a complete last write symbolic", Note: "tracingResponseWriter.Write: response written by the handler in 2 writes, the last one possibly short / failing"},
 			},
 			Thorough: []HarnessSpec{
-				{Pkg: pkgTracer, Func: "H14a_resp_t", Unwind: 60, CaseGen: c14Cases(3, 2, 3), CaseNote: c14Note(3, 2, 3), Note: "response body: <=3 enveloped messages, symbolic flags/payload/terminal condition; no decompressor"},
-				{Pkg: pkgTracer, Func: "H14a_respz_t", Unwind: 60, CaseGen: c14Cases(3, 2, 3), CaseNote: c14Note(3, 2, 3), Note: "same with a (stub) decompressor"},
-				{Pkg: pkgTracer, Func: "H14a_req_t", Unwind: 60, CaseGen: c14Cases(3, 2, 3), CaseNote: c14Note(3, 2, 3), Note: "request body"},
+				{Pkg: pkgTracer, Func: "H14a_resp_t", Unwind: 60, QuickSolve: true, CaseGen: c14Cases(2, 2, 3), CaseNote: c14Note(2, 2, 3), Note: "response body: <=2 enveloped messages delivered in 3 reads, symbolic flags/payload/terminal condition; no decompressor"},
 			},
 			Stubs: []string{"wrapped body = script reader with symbolic chunk sizes and terminal condition", "decompressor = contract stub (output = input xor 0x55)", "bytes.Buffer modelled on its fields (Write/String/Read/Len), Buffer.ReadFrom = loop of Read+Write", "time.Since nondeterministic", "collector records the completed trace"},
 			Out:   []string{"real decompressors (C20)", "HTTP plumbing around the reader (RoundTripper/Handler)"},
@@ -229,9 +226,6 @@ func registry() []PropSpec {
 				{Pkg: pkgMain, Func: "H08e_q", Unwind: 12, UnwindFor: map[string]int{"vModelContains": 40}, Split: []SplitDim{{"nargs", 0, 3}, {"kind#0", 0, 3}, {"kind#1", 0, 3}, {"kind#2", 0, 3}}, CaseNote: "case split: number of args and kind of each arg (2 literals, 2 @files) enumerated; file contents and readability symbolic", Note: "argsToPatterns on <=3 args, each a literal or one of two @files (content <=3 bytes over {a,b,newline}, readable or not)"},
 			},
 			Thorough: []HarnessSpec{
-				{Pkg: pkgCC, Func: "H08a_t", Unwind: 8, Recur: 12, Note: "<=3 patterns x <=4 components; name <=5 components"},
-				{Pkg: pkgCC, Func: "H08b_t", Unwind: 12, Recur: 12, Note: "strings <=5 bytes", JobSecs: 1500, ExecSecs: 1400},
-				{Pkg: pkgCC, Func: "H08c_t", Unwind: 10, Recur: 12, Note: "<=3 patterns x <=3 components, 2 names <=3 components"},
 			},
 			Stubs: []string{"component strings drawn from a finite alphabet of constant strings"},
 			Out:   []string{"known-failing/known-flaky conflict rejection inside run()"},
